@@ -18,8 +18,9 @@ EXTENDS StagedStore, Json
 CONSTANT TraceFile
 TraceLog == ndJsonDeserialize(TraceFile)
 
-VARIABLES l, db, eff, snaps, prev, sure, dead, cnt, havoc
-tvars == <<l, db, eff, snaps, prev, sure, dead, cnt, havoc>>
+VARIABLES l, db, eff, snaps, prev, sure, dead, cnt, havoc,
+          held    \* snapshots the caller still holds: taken, neither deleted nor restored (their ids must not be handed out again)
+tvars == <<l, db, eff, snaps, prev, sure, dead, cnt, havoc, held>>
 
 Ev == TraceLog[l]
 ToMap(s) == {<<s[i][1], s[i][2]>> : i \in 1..Len(s)}
@@ -29,10 +30,10 @@ B(b) == IF b THEN 1 ELSE 0
 Report(op, exp) == PrintT(<<"MISMATCH", l, op, ToJson(exp)>>)
 Check(op, got, exp) == IF havoc \/ got = exp THEN TRUE ELSE Report(op, exp)
 
-TInit == l = 1 /\ db = {} /\ eff = {} /\ snaps = <<>> /\ prev = {} /\ sure = {} /\ dead = {} /\ cnt = 0 /\ havoc = FALSE
+TInit == l = 1 /\ db = {} /\ eff = {} /\ snaps = <<>> /\ prev = {} /\ sure = {} /\ dead = {} /\ cnt = 0 /\ havoc = FALSE /\ held = {}
 
-NoSnaps == snaps' = <<>> /\ sure' = {} /\ dead' = {}
-SnapsUnchanged == UNCHANGED <<snaps, sure, dead, cnt, havoc>>
+NoSnaps == snaps' = <<>> /\ sure' = {} /\ dead' = {} /\ held' = {}
+SnapsUnchanged == UNCHANGED <<snaps, sure, dead, cnt, havoc, held>>
 
 Step ==
   LET e == Ev
@@ -66,9 +67,11 @@ Step ==
          /\ UNCHANGED <<db, eff, prev>> /\ SnapsUnchanged
     [] e.op = "snap" ->
          \* a new snapshot gets an id no live snapshot of that object has (or it would silently replace that snapshot's saved state)
-         /\ Check("snapshot-id-reused", B(k \in sure), 0)
+         \* (judged on `held`, not on `sure`: that a younger snapshot MAY fail to restore after an older one was restored does not
+         \* make its id free - the caller still holds it, and a restore through it would silently return another snapshot's state)
+         /\ Check("snapshot-id-reused", B(k \in held), 0)
          /\ snaps' = (k :> [st |-> eff, n |-> cnt]) @@ snaps
-         /\ sure' = sure \cup {k} /\ dead' = dead \ {k} /\ cnt' = cnt + 1
+         /\ sure' = sure \cup {k} /\ dead' = dead \ {k} /\ cnt' = cnt + 1 /\ held' = held \cup {k}
          /\ UNCHANGED <<db, eff, prev, havoc>>
     [] e.op = "restore" ->
          IF k \in DOMAIN snaps /\ k \notin dead
@@ -76,15 +79,15 @@ Step ==
               \* for a snapshot that was restored before or that is younger than a restored one
               /\ (IF k \in sure THEN Check("restore-err", e.err, 0) ELSE TRUE)
               /\ IF e.err = 0
-                 THEN eff' = snaps[k].st /\ sure' = AfterRestore(sure, snaps, k)
-                 ELSE UNCHANGED <<eff, sure>>
+                 THEN eff' = snaps[k].st /\ sure' = AfterRestore(sure, snaps, k) /\ held' = held \ {k}
+                 ELSE UNCHANGED <<eff, sure, held>>
               /\ UNCHANGED <<db, prev, snaps, dead, cnt, havoc>>
          ELSE \* never taken: nothing to return to, the staged state stays whatever the call answers; deleted: if the call
               \* succeeds all the same, its result is not defined by the property
               /\ havoc' = (havoc \/ (e.err = 0 /\ k \in dead /\ PrintT(<<"HAVOC", l>>)))
-              /\ UNCHANGED <<db, eff, prev, snaps, sure, dead, cnt>>
+              /\ UNCHANGED <<db, eff, prev, snaps, sure, dead, cnt, held>>
     [] e.op = "delsnap" ->
-         /\ dead' = dead \cup {k} /\ sure' = sure \ {k}
+         /\ dead' = dead \cup {k} /\ sure' = sure \ {k} /\ held' = held \ {k}
          /\ UNCHANGED <<db, eff, prev, snaps, cnt, havoc>>
     [] e.op = "commit" ->      \* Commit (through the root or any view) + db.Write; the dump of the database must equal eff
          /\ Check("commit-dump", ToMap(e.dump), eff)
